@@ -57,9 +57,9 @@ func main() { vlib.Run("C29", run) }
 
 func run(c *vlib.Ctx) {
 	c.Rule("hist strata: 12-45 ops {Publish 45%, Resolve 45%, Restart 10%} over 2-3 keys (ed25519 x2 + one of rsa/secp256k1/ecdsa) and 12 values (3 CIDs x 4 sub-paths), explicit sequence drawn around the current one (cur-1, cur, cur+1, cur+7, 0), TTL in {default,0,1h,2h}, EOL in {default, 2090, 2100, 2110}, 8% injected PutValue failures, routing store in {map, boxo offline router}, cache size {none | 1,2,16} x MaxCacheTTL {unset, 0, 1h}; hist-nocache never enables the cache, hist-cache always does. non-trivial = the history has a publish of a different value followed by a resolve of that key, a rejected explicit sequence, and a resolve through a non-canonical name form. chain stratum: 1-6 hops of IPNS/DNSLink nodes, 20% cycles, 10% dangling, per-hop TTL k*1h (k distinct 1..9) or 0, remainders, depth in {1..8, default, unlimited}; non-trivial = at least 2 hops with a remainder somewhere and (a zero TTL hop or a recursion error expected). distinct = FNV of config + op list")
-	c.Cases("hist-nocache", c.N(350, 7000), func(k *vlib.Case) { guarded(k, func() { histCase(k, false) }) })
-	c.Cases("hist-cache", c.N(350, 7000), func(k *vlib.Case) { guarded(k, func() { histCase(k, true) }) })
-	c.Cases("chain", c.N(700, 14000), func(k *vlib.Case) { guarded(k, func() { chainCase(k) }) })
+	c.Cases("hist-nocache", c.N(350, 3500), func(k *vlib.Case) { guarded(k, func() { histCase(k, false) }) })
+	c.Cases("hist-cache", c.N(350, 3500), func(k *vlib.Case) { guarded(k, func() { histCase(k, true) }) })
+	c.Cases("chain", c.N(700, 8000), func(k *vlib.Case) { guarded(k, func() { chainCase(k) }) })
 }
 
 func guarded(k *vlib.Case, fn func()) { vlib.Guard(k, "case", 120*time.Second, fn) }
@@ -248,10 +248,11 @@ type keyState struct {
 	lastOK    string          // value of the last successful publish
 	uncertain map[string]bool // values of failed publishes since then
 	attempted string          // last value passed to Publish
-	// lastResolved[form text] = base value the last successful Resolve through
-	// that textual form returned (what a resolver-side cache keyed by the
-	// textual form would hold).
-	lastResolved map[string]string
+	// lastResolved[form text] = the base values that earlier Resolves through
+	// that textual form may have returned since the last Restart (what a
+	// resolver-side cache keyed by the textual form could still hold). A set,
+	// because "/a" and "/a/" joined with a remainder print the same.
+	lastResolved map[string]map[string]bool
 	// for the non-triviality rule
 	changedSinceResolve bool
 }
@@ -291,7 +292,7 @@ func (w *histWorld) newNS(fresh bool) {
 	}
 	w.ns = ns
 	for _, ks := range w.keys {
-		ks.lastResolved = map[string]string{}
+		ks.lastResolved = map[string]map[string]bool{}
 	}
 }
 
@@ -716,21 +717,37 @@ func (w *histWorld) resolve(r *vlib.Rand) {
 		w.sawRepublishResolve = true
 		ks.changedSinceResolve = false
 	}
+	matched := false
 	for _, c := range cands {
 		if got == modelJoin(c, req) {
-			ks.lastResolved[f.text] = c
-			return
+			if ks.lastResolved[f.text] == nil {
+				ks.lastResolved[f.text] = map[string]bool{}
+			}
+			ks.lastResolved[f.text][c] = true
+			matched = true
 		}
+	}
+	if matched {
+		return
 	}
 	// wrong value: classify
 	want := modelJoin(cands[0], req)
 	if len(cands) > 1 {
 		want += " (or a value of a failed publish since)"
 	}
-	if stale, ok := ks.lastResolved[f.text]; ok && w.cacheOn && got == modelJoin(stale, req) {
-		k.Fail("resolve-after-republish/stale-cache", "Resolve right after a successful Publish returns the published value (cache enabled)", want, fmt.Sprintf("%s — the value an earlier Resolve through /ipns/%s returned before the re-publish (cache %s)", got, f.text, w.cacheCfg))
-		k.C.Count("stale_cache_results", 1)
-		return
+	if w.cacheOn {
+		var olds []string
+		for v := range ks.lastResolved[f.text] {
+			olds = append(olds, v)
+		}
+		sort.Strings(olds)
+		for _, stale := range olds {
+			if got == modelJoin(stale, req) {
+				k.Fail("resolve-after-republish/stale-cache", "Resolve right after a successful Publish returns the published value (cache enabled)", want, fmt.Sprintf("%s — the value an earlier Resolve through /ipns/%s returned before the re-publish (cache %s)", got, f.text, w.cacheCfg))
+				k.C.Count("stale_cache_results", 1)
+				return
+			}
+		}
 	}
 	k.Fail("resolve-after-publish/wrong-value/"+cacheTag, "Resolve right after a successful Publish returns the published value", want, got)
 }
